@@ -309,8 +309,10 @@ class BSL(ModelBased):
         if self.logit_transform_bound is not None:
             curr_sample = self.state['params'][n]
             prev_sample = self.state['params'][n-1]
-            logp2 = self._jacobian_logit_transform(curr_sample, self.logit_transform_bound) - \
-                self._jacobian_logit_transform(prev_sample, self.logit_transform_bound)
+            curr_tilde = self._para_logit_transform(curr_sample, self.logit_transform_bound)
+            prev_tilde = self._para_logit_transform(prev_sample, self.logit_transform_bound)
+            logp2 = self._jacobian_logit_transform(curr_tilde, self.logit_transform_bound) - \
+                self._jacobian_logit_transform(prev_tilde, self.logit_transform_bound)
         res = logp2 + current - previous
 
         # prevent overflow warnings
